@@ -1,4 +1,4 @@
-// @unit id=v_recv props=C03,C09,C13,C01,C04,C05,C06,C07,C08,C14,C15,C17,C18 tier=quick rlimit=60
+// @unit id=v_recv props=C03,C09,C13,C01,C04,C05,C06,C07,C08,C14,C15,C17,C18,C19 tier=quick rlimit=60
 // Verus contracts on the real bodies of src/proto/streams/recv.rs, extracted on every run.
 //   level (connection or stream) = (window, available, in_flight):  window = credit the peer still has,
 //   available = window + released-but-unannounced, in_flight = handed out and not released.
@@ -47,6 +47,27 @@ impl QueueAccept {
     pub fn push(&mut self, stream: &mut Stream) -> (r: bool)
         ensures *final(stream) == (Stream { is_pending_accept: true, ..*old(stream) }),
             final(self).ghost_len == old(self).ghost_len + (if old(stream).is_pending_accept { 0int } else { 1int }),
+    { unimplemented!() }
+}
+
+impl QueueAccept {
+    #[verifier::external_body]
+    pub fn pop(&mut self, store: &mut RStore) -> (r: Option<Stream>)
+        ensures match r {
+            Some(s) => old(self).ghost_len > 0 && final(self).ghost_len == old(self).ghost_len - 1 && final(store).held() == old(store).held() + 1,
+            None => old(self).ghost_len == 0 && final(self).ghost_len == 0 && final(store).held() == old(store).held(),
+        },
+    { unimplemented!() }
+}
+/// store::Queue<NextResetExpire>: locally reset streams waiting for their grace period to end
+pub struct QueueResetExpire { pub ghost_len: usize }
+impl QueueResetExpire {
+    #[verifier::external_body]
+    pub fn pop(&mut self, store: &mut RStore) -> (r: Option<Stream>)
+        ensures match r {
+            Some(s) => old(self).ghost_len > 0 && final(self).ghost_len == old(self).ghost_len - 1 && final(store).held() == old(store).held() + 1,
+            None => old(self).ghost_len == 0 && final(self).ghost_len == 0 && final(store).held() == old(store).held(),
+        },
     { unimplemented!() }
 }
 
@@ -182,6 +203,8 @@ pub struct Counts {
     pub released: Ghost<Seq<usize>>,
     /// ghost: number of streams admitted against the receive concurrency limit by Recv::recv_headers
     pub admitted: Ghost<int>,
+    /// ghost: number of streams taken off a queue by the clear_* functions and handed to Counts::transition_after
+    pub drained: Ghost<int>,
     pub tag: u8,
 }
 impl Counts {
@@ -204,6 +227,13 @@ impl Counts {
     #[verifier::external_body]
     pub fn record_data_frame(&mut self, payload_len: usize) -> (r: Result<(), BudgetExhausted>)
         ensures *final(self) == (Counts { charged: Ghost(old(self).charged@.push(payload_len)), tag: final(self).tag, ..*old(self) }),
+    { unimplemented!() }
+
+    /// Counts::transition_after for a stream drained from a queue at the end of the connection (its first argument is the
+    /// real `is_reset_counted`)
+    #[verifier::external_body]
+    pub fn transition_after_drained(&mut self, stream: Stream, is_reset_counted: bool, store: &mut RStore)
+        ensures final(store).held() == old(store).held() - 1, *final(self) == (Counts { drained: Ghost(old(self).drained@ + 1), ..*old(self) }),
     { unimplemented!() }
 
     /// Counts::transition_after where the caller is not an announcer of credit (no I-owed obligation)
@@ -255,6 +285,7 @@ pub struct Recv {
     pub is_push_enabled: bool,
     pub is_extended_connect_protocol_enabled: bool,
     pub pending_accept: QueueAccept,
+    pub pending_reset_expired: QueueResetExpire,
 }
 
 /// A received DATA frame, reduced: payload length and padding (frame::Data<Bytes> in /repo; `flow_controlled_len`
@@ -548,6 +579,66 @@ impl Recv {
     //@spec             } else {
     //@spec                 final(counts).admitted@ == old(counts).admitted@ && final(stream).is_counted == old(stream).is_counted && final(self).last_processed_id == old(self).last_processed_id
     //@spec             }),
+    //@end
+
+    // C19 / C07, end of the connection: the three receive-side queues are DRAINED — every stream on them is taken off
+    // exactly once and goes through Counts::transition_after (where a released record is removed), for ANY queue length;
+    // afterwards the queues are empty; every Ptr is handed back.  (`clear_expired_reset_streams`, which looks at the
+    // clock, is not under contract.)
+    //@extract src/proto/streams/recv.rs Recv::clear_stream_window_update_queue
+    //@subst store: &mut Store=>store: &mut RStore
+    //@subst_re counts\.transition\(stream, \|_, stream\| \{\s*\}\)=>{ let is_pending_reset = stream.is_pending_reset_expiration(); counts.transition_after_drained(stream, is_pending_reset, store); }
+    //@spec     ensures
+    //@spec         final(self).pending_window_updates.ghost_len == 0 && final(store).held() == old(store).held(),
+    //@spec         final(counts).drained@ == old(counts).drained@ + old(self).pending_window_updates.ghost_len,
+    //@spec         *final(self) == (Recv { pending_window_updates: final(self).pending_window_updates, ..*old(self) }),
+    //@loop_opt 0     invariant
+    //@loop_opt 0         store.held() == old(store).held(),
+    //@loop_opt 0         counts.drained@ + self.pending_window_updates.ghost_len == old(counts).drained@ + old(self).pending_window_updates.ghost_len,
+    //@loop_opt 0         *self == (Recv { pending_window_updates: self.pending_window_updates, ..*old(self) }),
+    //@loop_opt 0     ensures self.pending_window_updates.ghost_len == 0,
+    //@loop_opt 0     decreases self.pending_window_updates.ghost_len,
+    //@end
+
+    //@extract src/proto/streams/recv.rs Recv::clear_all_reset_streams
+    //@subst store: &mut Store=>store: &mut RStore
+    //@subst counts.transition_after(stream, true);=>counts.transition_after_drained(stream, true, store);
+    //@spec     ensures
+    //@spec         final(self).pending_reset_expired.ghost_len == 0 && final(store).held() == old(store).held(),
+    //@spec         final(counts).drained@ == old(counts).drained@ + old(self).pending_reset_expired.ghost_len,
+    //@spec         *final(self) == (Recv { pending_reset_expired: final(self).pending_reset_expired, ..*old(self) }),
+    //@loop_opt 0     invariant
+    //@loop_opt 0         store.held() == old(store).held(),
+    //@loop_opt 0         counts.drained@ + self.pending_reset_expired.ghost_len == old(counts).drained@ + old(self).pending_reset_expired.ghost_len,
+    //@loop_opt 0         *self == (Recv { pending_reset_expired: self.pending_reset_expired, ..*old(self) }),
+    //@loop_opt 0     ensures self.pending_reset_expired.ghost_len == 0,
+    //@loop_opt 0     decreases self.pending_reset_expired.ghost_len,
+    //@end
+
+    //@extract src/proto/streams/recv.rs Recv::clear_all_pending_accept
+    //@subst store: &mut Store=>store: &mut RStore
+    //@subst counts.transition_after(stream, false);=>counts.transition_after_drained(stream, false, store);
+    //@spec     ensures
+    //@spec         final(self).pending_accept.ghost_len == 0 && final(store).held() == old(store).held(),
+    //@spec         final(counts).drained@ == old(counts).drained@ + old(self).pending_accept.ghost_len,
+    //@spec         *final(self) == (Recv { pending_accept: final(self).pending_accept, ..*old(self) }),
+    //@loop_opt 0     invariant
+    //@loop_opt 0         store.held() == old(store).held(),
+    //@loop_opt 0         counts.drained@ + self.pending_accept.ghost_len == old(counts).drained@ + old(self).pending_accept.ghost_len,
+    //@loop_opt 0         *self == (Recv { pending_accept: self.pending_accept, ..*old(self) }),
+    //@loop_opt 0     ensures self.pending_accept.ghost_len == 0,
+    //@loop_opt 0     decreases self.pending_accept.ghost_len,
+    //@end
+
+    //@extract src/proto/streams/recv.rs Recv::clear_queues
+    //@subst store: &mut Store,=>store: &mut RStore,
+    //@spec     ensures
+    //@spec         final(store).held() == old(store).held(),
+    //@spec         final(self).pending_window_updates.ghost_len == 0 && final(self).pending_reset_expired.ghost_len == 0,
+    //@spec         clear_pending_accept ==> final(self).pending_accept.ghost_len == 0,
+    //@spec         !clear_pending_accept ==> final(self).pending_accept == old(self).pending_accept,
+    //@spec         final(counts).drained@ == old(counts).drained@ + old(self).pending_window_updates.ghost_len + old(self).pending_reset_expired.ghost_len
+    //@spec             + (if clear_pending_accept { old(self).pending_accept.ghost_len as int } else { 0int }),
     //@end
 
     // C13 / C09 / C04 / C01: the PUSH_PROMISE for a freshly created promised stream.  The stream must be idle (=> reserved
